@@ -139,7 +139,7 @@ FIELDS = {
     'ProcessRotateLeft': {'subcon': Sub(), 'amount': Param('int'), 'group': Param('int')},
     'Checksum': {'checksumfield': Sub(), 'hashfunc': Func('dyn'), 'bytesfunc': Func('dyn')},
     'Lazy': {'subcon': Sub()},
-    'LazyStruct': {'subcons': SubList(), '_subcons': Opaque(), '_subconsindexes': Opaque()},
+    'LazyStruct': {'subcons': SubList(), '_subcons': Opaque(), '_subconsindexes': Map('int', keys='str')},
     'LazyArray': {'subcon': Sub(), 'count': Param('int')},
     'LazyBound': {'subconfunc': Func('sub')},
     'Hex': {'subcon': Sub()},
